@@ -27,6 +27,9 @@ EntSites(k) ==
                               <<"rules.atts", "short">>} ELSE {})
     \cup (IF k = "multi" THEN {<<"rules.sign", "unknown">>, <<"rules.sign", "failed">>, <<"rules.sign", "denied">>} ELSE {})
 
+\* the ways in which a stored slashing-protection record can be undecodable: arbitrary bytes, a zero-length value, the
+\* version byte alone, a version-1 record that is too short or too long, an unknown version that is no legacy encoding
+RecordShapes == {"garbage", "empty", "versiononly", "short", "long", "otherversion"}
 \* request-wide sites
 ReqSites(k) ==
     {<<"ruler.enter", "failed">>, <<"ruler.enter", "unknown">>}
@@ -35,9 +38,10 @@ ReqSites(k) ==
     \cup (IF k = "prop" THEN {<<"rules.prop", "unknown">>, <<"rules.prop", "failed">>, <<"rules.prop", "denied">>} ELSE {})
     \cup (IF k = "gen" THEN {<<"rules.sign", "unknown">>, <<"rules.sign", "failed">>, <<"rules.sign", "denied">>} ELSE {})
     \cup (IF k \in {"att", "atts", "prop"}
-            THEN {<<"store.fetch.enter", "error">>, <<"record", "garbage">>, <<"store", "closed">>,
+            THEN {<<"store.fetch.enter", "error">>, <<"store", "closed">>,
                   <<IF k = "atts" THEN "store.batch.enter" ELSE "store.store.enter", "error">>}
             ELSE {})
+    \cup (IF k \in {"att", "atts", "prop"} THEN {<<"record", sh>> : sh \in RecordShapes} ELSE {})
 
 Plans ==
     {[kind |-> k, n |-> N(k, n), site |-> sf[1], fault |-> sf[2], pos |-> p, scope |-> "ent"] :
